@@ -71,7 +71,9 @@ def _alnum(seed, label, n):
 
 
 NONASCII = ["sécret-ü", "пароль", "密码\U0001f511key",
-            "é" * 32, "é" * 32 + "x"]
+            "é" * 32, "é" * 32 + "x",
+            # blanks are octets of the secret like any other (leading, trailing, only)
+            " lead", "trail ", " ", "in ner"]
 
 
 def _chunks(xs, n):
@@ -127,7 +129,9 @@ def totp_jobs(tier, seed):
 
 
 SCRAM_PW_STABLE = ["p", "pencil", "x" * 63, "x" * 64, "x" * 65, "pässwörd",
-                   "пароль", "密码\U0001f511", ""]
+                   "пароль", "密码\U0001f511", "",
+                   # SASLprep keeps ASCII blanks wherever they stand
+                   " lead", "trail ", " ", "in ner"]
 # SASLprep (RFC 4013) changes these: soft hyphen mapped to nothing, NBSP -> space, NFKC
 SCRAM_PW_UNSTABLE = ["a\u00adb", "x\u00a0y", "\u2168", "\u00aa"]
 
